@@ -76,4 +76,44 @@ pub(crate) mod verif_kani {
         kani::assume(i < 64);
         assert!(get_bit(r, i) == (get_bit(block, i) && s <= i && i <= e), "C01.mask_bits");
     }
+
+    /// Bounded back-stop for the Verus proof of `resize` (which needs proof text spliced at anchors inside the body
+    /// and is therefore undecided when those lines are edited): concrete (old, new) lengths around the 64-bit block
+    /// boundary, arbitrary old contents and fill value. Old bits below min(old, new) keep their value, fresh bits
+    /// take `initial_value`, the block count matches.
+    fn resize_case(old: usize, new: usize) {
+        let b0: u64 = kani::any();
+        let b1: u64 = kani::any();
+        let mut m = if old <= 64 {
+            map_from_bits(old, b0)
+        } else {
+            let live = (1u64 << (old - 64)) - 1;
+            VacancyMap { blocks: vec![b0, (b1 & live) | !live], len_bits: old }
+        };
+        let fill: bool = kani::any();
+        m.resize(new, fill);
+        assert!(m.len() == new, "C01.resize_len");
+        assert!(m.blocks.len() == new.div_ceil(64), "C01.resize_block_count");
+        let i: usize = kani::any();
+        kani::assume(i < new);
+        let expect = if i < old { if i < 64 { (b0 >> i) & 1 == 1 } else { (b1 >> (i - 64)) & 1 == 1 } } else { fill };
+        assert!(map_bit(&m, i) == expect, "C01.resize_keeps_old_bits_and_fills_fresh_bits");
+    }
+    macro_rules! resize_inst {
+        ($name:ident, $old:expr, $new:expr) => {
+            #[kani::proof]
+            #[kani::unwind(4)]
+            fn $name() {
+                resize_case($old, $new);
+            }
+        };
+    }
+    resize_inst!(resize_bounded_3_to_67, 3, 67);
+    resize_inst!(resize_bounded_63_to_64, 63, 64);
+    resize_inst!(resize_bounded_64_to_65, 64, 65);
+    resize_inst!(resize_bounded_70_to_130, 70, 130);
+    resize_inst!(resize_bounded_0_to_5, 0, 5);
+    resize_inst!(resize_bounded_5_to_40, 5, 40);
+    resize_inst!(resize_bounded_100_to_3, 100, 3);
+    resize_inst!(resize_bounded_67_to_64, 67, 64);
 }
